@@ -7,6 +7,8 @@
       envP / envS    PARSEC_MCA_<name> / PARSEC_MCA_<synonym> present in the environment of the process
       fileP / fileS  entry for the name / the synonym in the parameter file; fileSfirst: the synonym's entry comes first
       (the default always exists); syn: a synonym is registered; type: int | sizet | string
+      rereg          the parameter is registered a second time under the same name (same default), before and again after
+                     the override: a second registration does not change the effective value (the sources are the same)
    Values are named by the tag of their source; the trace specification maps tags to the concrete strings.
 
    Property (properties.jsonl):  override  >  --mca or environment (incl. synonyms)  >  parameter file  >  default;
@@ -19,12 +21,12 @@
    by the registration itself, before any synonym exists, already caches the entry of the name), lookup_default.
    TLC evaluates both over the whole box: PredictedAllowed = the transcription resolves inside the property. *)
 EXTENDS Naturals, Sequences, FiniteSets, TLC, Json
-CONSTANTS Types
-VARIABLES case, done
-vars == <<case, done>>
+CONSTANTS Types, MaxOrder
+VARIABLES case, pair, done
+vars == <<case, pair, done>>
 
 Box == [type : Types, syn : BOOLEAN, ovr : BOOLEAN, cmdP : 0..2, cmdS : 0..1,
-        envP : BOOLEAN, envS : BOOLEAN, fileP : BOOLEAN, fileS : BOOLEAN, fileSfirst : BOOLEAN]
+        envP : BOOLEAN, envS : BOOLEAN, fileP : BOOLEAN, fileS : BOOLEAN, fileSfirst : BOOLEAN, rereg : BOOLEAN]
 Wellformed(c) == /\ (~c.syn => (c.cmdS = 0 /\ ~c.envS /\ ~c.fileS))
                  /\ (c.fileSfirst => (c.fileP /\ c.fileS))
 Cases == {c \in Box : Wellformed(c)}
@@ -54,16 +56,40 @@ Predicted(c) == IF c.ovr THEN "ovr"
 SourceOf(tag) == CASE tag = "ovr" -> "override" [] tag \in {"cmdP", "cmdS", "envP", "envS"} -> "env"
                    [] tag \in {"fileP", "fileS"} -> "file" [] OTHER -> "default"
 
+\* ---- two parameters whose names are in prefix relation ------------------------------------------------------------
+\* A pair case: parameters "A" (name N) and "B" (name N_x, so that N is a proper prefix of it), the sequence of --mca
+\* options of the command line (order[i] = which of the two the i-th option names: both orders, interleaved, repeated),
+\* the type of both, fileB: B also has a parameter-file entry.  Two different names are two different parameters
+\* whatever their spelling: each one resolves as the single-parameter case made of ITS OWN options (OwnCase), the joined
+\* value being the one of its own options only (OwnPositions), in the order given.
+Who == {"A", "B"}
+PairBox == [order : UNION {[1..n -> Who] : n \in 0..MaxOrder}, type : Types, fileB : BOOLEAN]
+NoPair == [order |-> <<>>, type |-> "none", fileB |-> FALSE]
+OwnPositions(p, w) == SelectSeq([i \in 1..Len(p.order) |-> i], LAMBDA i : p.order[i] = w)
+OwnCase(p, w) == [type |-> p.type, syn |-> FALSE, ovr |-> FALSE, cmdP |-> Len(OwnPositions(p, w)), cmdS |-> 0,
+                  envP |-> FALSE, envS |-> FALSE, fileP |-> (w = "B" /\ p.fileB), fileS |-> FALSE, fileSfirst |-> FALSE,
+                  rereg |-> FALSE]
+
 \* ---- evaluation over the box ---------------------------------------------------------------------------------
-Init == case \in Cases /\ done = FALSE
-Resolve == ~done /\ done' = TRUE /\ UNCHANGED case
+Init == /\ done = FALSE
+        /\ \/ case \in Cases /\ pair = NoPair
+           \/ case = (CHOOSE c \in Cases : TRUE) /\ pair \in PairBox
+Resolve == ~done /\ done' = TRUE /\ UNCHANGED <<case, pair>>
 Next == Resolve
 Spec == Init /\ [][Next]_vars
-TypeOK == case \in Cases
+TypeOK == case \in Cases /\ pair \in PairBox \cup {NoPair}
+\* every option of a pair's command line belongs to exactly one of the two parameters; each of them resolves from its own
+\* options if it has any, else from its file entry, else from its default
+PairIndependent == pair # NoPair =>
+    /\ Len(OwnPositions(pair, "A")) + Len(OwnPositions(pair, "B")) = Len(pair.order)
+    /\ \A w \in Who : LET c == OwnCase(pair, w) IN
+          /\ AllowedTags(c) = (IF \E i \in 1..Len(pair.order) : pair.order[i] = w THEN {"cmdP"}
+                               ELSE IF w = "B" /\ pair.fileB THEN {"fileP"} ELSE {"dflt"})
+          /\ Predicted(c) \in AllowedTags(c)
 PredictedAllowed == Predicted(case) \in AllowedTags(case) /\ SourceOf(Predicted(case)) = Level(case)
 \* adding a source of a higher level always moves the result to that level; removing every source leaves the default
 Precedence == /\ (case.ovr => Level(case) = "override")
               /\ (~case.ovr /\ (case.cmdP > 0 \/ case.cmdS > 0 \/ case.envP \/ case.envS) => Level(case) = "env")
               /\ (AllowedTags(case) # {})
-Emit == done => PrintT(<<"VH", ToJson(case)>>)
+Emit == done => PrintT(<<"VH", IF pair = NoPair THEN ToJson(case) ELSE ToJson(pair)>>)
 =========================================================================
